@@ -98,6 +98,7 @@ def run(chk):
                 '(templates / pooled covariance / pseudo-inverse / static scores / DPA scores) of one attack object; distinct = (case, array, precision, batch size)')
     chk.assumptions += ['trace length <= 2 for the exact pseudo-inverse', 'pooled covariance / scores claimed when every declared class has >= 2 building traces (unbiased covariance undefined otherwise); '
                         'templates claimed for every class with >= 1 trace', 'tolerance 64 eps x conditioning magnitude']
+    enumerated(chk)
     cases = make_cases(rng, chk.tier)
     # sensitivity: the pinned rule is refuted on the model
     pinned = [{'c': {'S': 2, 'W': 1, 'classes': [0, 1], 'variant': 'pinned'}, 'build': [{'t': [4, 8], 'd': [0]}, {'t': [1, 2], 'd': [1]}, {'t': [3, 2], 'd': [1]}], 'match': []}]
@@ -162,6 +163,47 @@ def run(chk):
     finally:
         scared.Container._BATCH_SIZE = old_bs
     chk.sample({'case': cases[0], 'expected': res[0]})
+
+
+def enumerated(chk):
+    """every small building set (TLC states) on the standalone template builder: templates, pooled covariance, pseudo-inverse"""
+    import scared
+    from scared.distinguishers import template as tpl
+
+    class TB(scared.distinguishers.partitioned.PartitionedDistinguisherBase, tpl._TemplateBuildDistinguisherMixin):
+        pass
+    confs = [(1, {0, 1, 2, 3}, 5), (2, {0, 1, 2}, 4)] if chk.tier == 'quick' else [(1, {0, 1, 2, 3}, 6), (2, {0, 1, 2}, 5)]
+    for S, tv, mx in confs:
+        r = tlc.run('TplEnum', cfg_text=tlc.cfg(constants={'S': S, 'TVals': tv, 'MaxN': mx, 'Gen': True}, invariants=['Lemmas', 'MeanLemma', 'Emit']), workers=1, timeout=3000)
+        chk.add_tlc(f'MC+GEN:every building set S={S} values {sorted(tv)} up to {mx} rows', r)
+        if r.violated:
+            raise tlc.TLCError(f'TplEnum violates {r.violated}')
+        for i, e in enumerate(r.emits()):
+            if chk.tier == 'quick' and S == 2 and i % 3:
+                continue
+            rows = e['rows']
+            dt = ['uint8', 'int16', 'float32', 'float64'][i % 4]
+            t = np.array([x['t'] for x in rows], dtype=dt)
+            d = np.array([x['d'] for x in rows], dtype='uint8')
+            for prec in (('float32', 'float64') if i % 5 == 0 else ('float64',)):
+                o = TB(partitions=np.array([1, 0], dtype='int32'), precision=prec)
+                cut = 1 + i % len(rows)
+                o.update(t[:cut], d[:cut])
+                if cut < len(rows):
+                    o.update(t[cut:], d[cut:])
+                tp = np.asarray(o.compute(), dtype='float64')
+                ctx = {'case': {'rows': rows, 'classes': [1, 0]}, 'which': 'builder', 'batch_size': cut, 'trace_dtype': dt, 'scale': 1.0, 'key': ('E', S, i)}
+                want_t = np.array([[fr(x) for x in row] for row in e['tpl']])
+                cmp(chk, 'template of a class is the mean of its building traces', tp, want_t, prec, 4, dict(ctx, mag=4.0), 'templates (builder)')
+                want_p = np.array([[fr(x) for x in row] for row in e['pooled']])
+                cmp(chk, 'pooled covariance is the average over declared classes of the unbiased within-class covariances', o.pooled_covariance, want_p, prec, 64, dict(ctx, mag=10.0), 'pooled covariance (builder)')
+                want_a = np.array([[fr(x) for x in row] for row in e['pinv']])
+                singular = S == 2 and abs(np.linalg.det(want_p)) < 1e-12 and np.any(want_p)
+                if not singular or prec == 'float64':
+                    condn = np.linalg.cond(want_p) if (S == 2 and not singular and np.any(want_p)) else 1.0
+                    if not (singular and not np.allclose(np.asarray(o.pooled_covariance), want_p, rtol=0, atol=0)):
+                        cmp(chk, 'pooled_covariance_inv is the pseudo-inverse of the pooled covariance', o.pooled_covariance_inv, want_a, prec, 256 * condn, dict(ctx, mag=float(np.abs(want_a).max()) + 1), 'pseudo-inverse (builder)')
+            chk.traces_validated += 1
 
 
 def hi_sq(case):
